@@ -4,6 +4,7 @@
 use crate::common::*;
 use crate::conform::*;
 use crate::isolate::{run_isolated, Iso};
+use marwood::cell::Cell;
 use marwood::lex;
 use marwood::parse;
 use marwood::syntax::ReplHighlighter;
@@ -296,6 +297,173 @@ fn literal_texts() -> Vec<String> {
     out
 }
 
+/// Well-formed seed programs for the malformed-program family: every sub-datum of each is replaced by every junk datum.
+const SEEDS: &[&str] = &[
+    "(lambda (a b) (+ a b))",
+    "(lambda (a . r) r)",
+    "(define (f a b) (list a b))",
+    "(define (f a . r) (define (g c) (* c 2)) (g a))",
+    "(define v 1)",
+    "(set! v 2)",
+    "(if v 1 2)",
+    "(let ((a 1) (b 2)) (+ a b))",
+    "(let* ((a 1) (b a)) b)",
+    "(letrec ((ev (lambda (n) (if (= n 0) #t (ev (- n 1)))))) (ev 2))",
+    "(let lp ((i 0)) (if (< i 2) (lp (+ i 1)) i))",
+    "(cond ((= 1 2) 'a) ((car '(x)) => list) (else 'c))",
+    "(case 3 ((1 2) 'low) ((3) => list) (else 'other))",
+    "(and 1 2)",
+    "(or #f 2)",
+    "(when v 1 2)",
+    "(unless v 1 2)",
+    "(begin 1 2)",
+    "`(a ,v (b ,(+ 1 2)) . c)",
+    "`#(a ,v)",
+    "(quote (a b))",
+    "(define-syntax m (syntax-rules (lit) ((_ a b ...) (list a b ...)) ((_ lit) 'lit)))",
+    "(delay (+ 1 2))",
+    "(apply + 1 (list 2 3))",
+    "(call/cc (lambda (k) (k 1)))",
+    "(eval '(+ 1 2))",
+    "(map (lambda (x) x) (list 1 2))",
+];
+const JUNK: &[&str] = &["1.5", "7", "\"s\"", "#\\c", "()", "#(1)", "(1.5)", "(a . 1.5)", "x", "#t", "(quote q)", "(a a)", "else", "=>", "...", "_", "2/3", "123456789012345678901234567890"];
+
+fn items_of(c: &Cell) -> Option<Vec<Cell>> {
+    match c {
+        Cell::Pair(_, _) if c.is_list() => Some(c.iter().cloned().collect()),
+        _ => None,
+    }
+}
+
+fn all_paths(c: &Cell, path: &mut Vec<usize>, out: &mut Vec<Vec<usize>>) {
+    out.push(path.clone());
+    if let Some(it) = items_of(c) {
+        for (i, x) in it.iter().enumerate() {
+            path.push(i);
+            all_paths(x, path, out);
+            path.pop();
+        }
+    }
+}
+
+fn replace_at(c: &Cell, path: &[usize], with: &Cell) -> Cell {
+    if path.is_empty() {
+        return with.clone();
+    }
+    let mut it = items_of(c).expect("path through a proper list");
+    it[path[0]] = replace_at(&it[path[0]], &path[1..], with);
+    Cell::new_list(it)
+}
+
+fn drop_at(c: &Cell, path: &[usize]) -> Cell {
+    let mut it = items_of(c).expect("path through a proper list");
+    if path.len() == 1 {
+        it.remove(path[0]);
+    } else {
+        it[path[0]] = drop_at(&it[path[0]], &path[1..]);
+    }
+    Cell::new_list(it)
+}
+
+/// Malformed programs: each seed with one sub-datum replaced by a junk datum or removed, at top level and
+/// inside a procedure body / a let body / an internal definition's neighbourhood.
+fn malformed_texts() -> Vec<String> {
+    let mut out = vec![];
+    let junk: Vec<Cell> = JUNK.iter().map(|j| parse::parse_text(j).expect("junk parses").0).collect();
+    for seed in SEEDS {
+        let form = parse::parse_text(seed).expect("seed parses").0;
+        let mut paths = vec![];
+        all_paths(&form, &mut vec![], &mut paths);
+        let mut variants: Vec<Cell> = vec![];
+        for p in &paths {
+            if p.is_empty() {
+                continue;
+            }
+            for j in &junk {
+                variants.push(replace_at(&form, p, j));
+            }
+            variants.push(drop_at(&form, p));
+        }
+        for v in variants {
+            let t = format!("{:#}", v);
+            out.push(format!("(lambda () {} 1)", t));
+            out.push(format!("(define (w) {})", t));
+            out.push(format!("((lambda (v) (define (h) v) {} (h)) 1)", t));
+            out.push(t);
+        }
+    }
+    out
+}
+
+/// A program that may legitimately run forever: compiled and run through the sliced entry point under an
+/// instruction budget (an unfinished evaluation is abandoned together with its VM and claims nothing).
+fn bounded_program_case(st: &mut (Option<Impl>, ReplHighlighter), acc: &mut Acc, text: &str) {
+    acc.evals += 1;
+    let mut problems: Vec<(String, String)> = vec![];
+    let cell = match std::panic::catch_unwind(|| parse::parse_text(text)) {
+        Ok(Ok((c, _))) => Some(c),
+        Ok(Err(_)) => None,
+        Err(e) => {
+            problems.push(("parse_text".into(), panic_message(&e)));
+            None
+        }
+    };
+    if let Some(cell) = cell {
+        let im = st.0.get_or_insert_with(Impl::new);
+        let vm = &mut im.vm;
+        let r = std::panic::catch_unwind(std::panic::AssertUnwindSafe(|| {
+            match vm.prepare_eval(&cell) {
+                Err(e) => return Some(format!("{}", e).len()),
+                Ok(_) => {}
+            }
+            for _ in 0..40 {
+                match vm.run_count(5_000) {
+                    Ok(None) => continue,
+                    Ok(Some(c)) => return Some(format!("{:#}", c).len()),
+                    Err(e) => return Some(format!("{}", e).len()),
+                }
+            }
+            None
+        }));
+        match r {
+            Err(e) => {
+                problems.push(("prepare_eval+run_count".into(), panic_message(&e)));
+                st.0 = None;
+            }
+            Ok(None) => {
+                acc.count("programs_abandoned_at_the_instruction_budget", 1);
+                st.0 = None;
+            }
+            Ok(Some(_)) => {}
+        }
+    }
+    if let Some(im) = st.0.as_mut() {
+        match im.eval_text("(+ 1 2)") {
+            ImplOut::Value(c) if format!("{:#}", c) == "3" => {}
+            other => {
+                // a malformed program may have redefined + : only a panic or an error here is a problem
+                if !matches!(other, ImplOut::Value(_)) {
+                    problems.push(("vm-unusable-afterwards".into(), other.show()));
+                }
+                st.0 = None;
+            }
+        }
+    }
+    if problems.is_empty() {
+        acc.nontrivial += 1;
+        acc.outcome("total");
+    }
+    for (entry, msg) in problems {
+        acc.violation(Violation {
+            key: format!("program:{:?}@{}", text, entry),
+            class: Some(format!("malformed-program/{}", entry)),
+            observed: "panic".into(),
+            detail: json!({"text": text, "entry_point": entry, "panic": msg}),
+        });
+    }
+}
+
 fn text_case(st: &mut (Option<Impl>, ReplHighlighter), acc: &mut Acc, text: &str) {
     acc.evals += 1;
     let mut problems: Vec<(String, String)> = vec![];
@@ -424,6 +592,23 @@ pub fn run(ctx: &Ctx) -> i32 {
         acc_zero,
     );
     let a_text = Acc::merge(a_text, a_lit);
+    let mal = malformed_texts();
+    let a_mal = par_fold(
+        mal.len() as u64,
+        64,
+        || (None::<Impl>, ReplHighlighter::new()),
+        |st, acc, i| {
+            let text = &mal[i as usize];
+            beat(text);
+            bounded_program_case(st, acc, text);
+            if i % 10_007 == 5 {
+                acc.sample(json!({"text": text}));
+            }
+        },
+        Acc::merge,
+        acc_zero,
+    );
+    let a_text = Acc::merge(a_text, a_mal);
     // (b) builtins x arity x palette, isolated
     let cases = builtin_cases(ctx.tier);
     let nb = cases.len();
@@ -524,12 +709,13 @@ pub fn run(ctx: &Ctx) -> i32 {
     }
     rep.exhaustive = !truncated;
     rep.rule = format!(
-        "(a) every concatenation of <= {} lexemes over {:?} ({} texts), plus {} literal-family texts (character / string-escape / radix prefixes x 27 hex payloads around the surrogate range, U+10FFFF, 2^32 and 2^64 x 6 terminators; 16 character names; 8 numeric prefixes x 9 mantissas x 12 exponents up to e5000; each bare, in a list, in a dotted pair and inside a string), through lex::scan, parse::parse_text, Vm::eval_text (datum by datum), prepare_eval + run_count(3), and ReplHighlighter::highlight / highlight_check at every cursor; (b) every global procedure of Vm::global_symbols() (so a new builtin is picked up automatically) at every arity 0..{} with arguments from a {}-value boundary palette (thorough: arity 3 from every second palette value) (empty / one-element / shared / improper containers; 0, -1, i32 and i64 extremes +-1, 2^64, 2^200, rationals at the 32-bit limits, +-0.0, +-inf, NaN, 1e308; #\\nul, non-ASCII characters and strings; procedures, a continuation, the unspecified value, procedures and continuations smuggled into data, nesting 60, a 1000-element list) and at arities up to {} from one value per kind = {} calls, in isolated workers (address-space cap, watchdog); allocation sizes above 10^6 are excluded as the property states; (c) {} cyclic structures x {} uses (list? length equal? display write, and as the value of an evaluation). Oracle: outcome is a value or an error, the error (and value) can be rendered as text, and the same VM then evaluates (+ 1 2) to 3. Non-trivial = a case that satisfied the oracle.",
-        nlex, LEXEMES, n_texts, lits.len(), ctx.tier.pick(2, 3), BOUNDARY.len(), ctx.tier.pick(3, 5), nb, CYCLIC.len(), CYCLIC_USES.len()
+        "(a) every concatenation of <= {} lexemes over {:?} ({} texts), plus {} literal-family texts (character / string-escape / radix prefixes x 27 hex payloads around the surrogate range, U+10FFFF, 2^32 and 2^64 x 6 terminators; 16 character names; 8 numeric prefixes x 9 mantissas x 12 exponents up to e5000; each bare, in a list, in a dotted pair and inside a string), plus {} malformed programs ({} well-formed seed forms covering every special form, each with one sub-datum at a time replaced by each of {} junk data or removed; at top level, in a procedure body, in a defined procedure and next to an internal definition), through lex::scan, parse::parse_text, Vm::eval_text (datum by datum), prepare_eval + run_count(3), and ReplHighlighter::highlight / highlight_check at every cursor; (b) every global procedure of Vm::global_symbols() (so a new builtin is picked up automatically) at every arity 0..{} with arguments from a {}-value boundary palette (thorough: arity 3 from every second palette value) (empty / one-element / shared / improper containers; 0, -1, i32 and i64 extremes +-1, 2^64, 2^200, rationals at the 32-bit limits, +-0.0, +-inf, NaN, 1e308; #\\nul, non-ASCII characters and strings; procedures, a continuation, the unspecified value, procedures and continuations smuggled into data, nesting 60, a 1000-element list) and at arities up to {} from one value per kind = {} calls, in isolated workers (address-space cap, watchdog); allocation sizes above 10^6 are excluded as the property states; (c) {} cyclic structures x {} uses (list? length equal? display write, and as the value of an evaluation). Oracle: outcome is a value or an error, the error (and value) can be rendered as text, and the same VM then evaluates (+ 1 2) to 3. Non-trivial = a case that satisfied the oracle.",
+        nlex, LEXEMES, n_texts, lits.len(), mal.len(), SEEDS.len(), JUNK.len(), ctx.tier.pick(2, 3), BOUNDARY.len(), ctx.tier.pick(3, 5), nb, CYCLIC.len(), CYCLIC_USES.len()
     );
     rep.extra("builtin_calls", json!(nb));
     rep.extra("texts", json!(n_texts));
     rep.extra("literal_family_texts", json!(lits.len()));
+    rep.extra("malformed_program_texts", json!(mal.len()));
     rep.extra("single_reruns_after_worker_death", json!(retry.len()));
     rep.assumptions.push("Unicode texts beyond the lexeme alphabet are not claimed".into());
     acc.into_report(&mut rep);
